@@ -568,7 +568,7 @@ def random_rtb(ck, rng, n_seq):
         prev = 10.0 ** rng.uniform(-1, 3, nb)
         probs = np.array([0.45, 0.33, 0.12 if nb > 1 else 0.0, 0.03, 0.07 if nb > 1 else 0.0])
         probs = probs / probs.sum()
-        hist, was_stopped, good, modes = [], False, True, []
+        hist, was_stopped, good, modes, some_below = [], False, True, [], False
         for i in range(length):
             mode = str(rng.choice(["suff", "insuff", "mixed", "tol", "tolmixed"], p=probs))
             new = rtb_next(rng, prev, dec, tol, mode) if i else prev
@@ -587,6 +587,8 @@ def random_rtb(ck, rng, n_seq):
                 good = False
                 break
             ref.step(new)
+            if not was_stopped and 0 < int((new < tol).sum()) < nb:
+                some_below = True                       # some, not all, elements below tol while still running
             if ref.ambiguous:
                 ck.note_add("random_rtb_ambiguous_skipped")
                 good = False
@@ -595,7 +597,7 @@ def random_rtb(ck, rng, n_seq):
                 break
             if not was_stopped and not ref.cont:
                 ck.mark("random.ReduceToBason/first-stop:" + "+".join(ref.cause))
-                if nb > 1 and "tolmixed" in modes:
+                if some_below:
                     ck.mark("random.ReduceToBason/batched-with-some-below-tol")
             was_stopped = was_stopped or not ref.cont
             prev = new
@@ -774,6 +776,8 @@ def drive_mpc(ck, rng, n):
     for i in range(n):
         steps, patience = int(rng.integers(1, 7)), int(rng.choice([1, 2, 3, 4, 50]))
         tol = float(rng.choice([1e-5, -1e30]))
+        if i == 0:                                      # one case per shard in which only the budget can stop the loop
+            steps, patience, tol = int(rng.integers(3, 7)), 50, -1e30
         regime = f"pat{'big' if patience == 50 else 'small'}/tol{tol:g}"
         ns, nc, T = 3, 2, 4
         A = torch.eye(ns, dtype=torch.float64) + 0.2 * torch.as_tensor(rng.standard_normal((ns, ns)))
@@ -838,6 +842,8 @@ def drive_icp(ck, rng, n):
     for i in range(n):
         steps, patience = int(rng.integers(1, 7)), int(rng.choice([1, 2, 3, 4, 50]))
         tol = float(rng.choice([1e-5, -1.0]))
+        if i == 0:                                      # one case per shard in which only the budget can stop the loop
+            steps, patience, tol = int(rng.integers(3, 7)), 50, -1.0
         batch = [(), (2,), (3,)][int(rng.integers(0, 3))]
         regime = f"batch{len(batch)}/pat{'big' if patience == 50 else 'small'}/tol{tol:g}"
         npts = int(rng.integers(6, 30))
